@@ -335,3 +335,51 @@ mod tests {
         }
     }
 }
+
+/// Arbitrary reachable `Parser` state over a symbolic original string (C13/C14, DESIGN section C13):
+/// window `[a,b)` of `s` on char boundaries, symbolic base offset (`<= 2^30`, so the `u32` offset
+/// field cannot wrap), one-shot split flag (only together with an empty window — all four assignment
+/// sites set it that way). Everything is built through the
+/// public API: `with_start_offset(&s[a..b], base+a)`, `.split(..)` on an empty window for the flag,
+/// the incoming direction is added by `sym_parser_dir!` where an operation reads it.
+#[macro_export]
+macro_rules! sym_parser_state {
+    ($s:ident, $p:ident, $a:ident, $b:ident, $base:ident, $flag:ident, $cap:expr) => {
+        sym_str!($s, $cap);
+        let $a: usize = kani::any();
+        let $b: usize = kani::any();
+        kani::assume($a <= $b && $b <= $s.len() && $s.is_char_boundary($a) && $s.is_char_boundary($b));
+        let $base: usize = kani::any();
+        kani::assume($base <= 1 << 30);
+        let $flag: bool = kani::any();
+        let mut $p = konst::Parser::with_start_offset(&$s[$a..$b], $base + $a);
+        if $flag {
+            kani::assume($a == $b);
+            $p = match $p.split('x') {
+                Ok((_, q)) => q,
+                Err(_) => {
+                    kani::assume(false);
+                    $p
+                }
+            };
+        }
+    };
+}
+
+/// Gives `$p` an arbitrary incoming direction without changing its window (`skip_back(0)` => FromEnd,
+/// `trim_matches(<char at neither end>)` => FromBoth). Only operations that READ the direction need
+/// this (`into_error`, `into_other_error`, `parse_direction`); every other operation overwrites it first.
+#[macro_export]
+macro_rules! sym_parser_dir {
+    ($s:ident, $p:ident, $a:ident, $b:ident) => {
+        let __dir: u8 = kani::any();
+        if __dir == 1 {
+            $p = $p.skip_back(0);
+        } else if __dir == 2 {
+            // trim_matches with a char that is at neither end: window unchanged, direction FromBoth
+            let __w = $s[$a..$b].as_bytes();
+            kani::assume(__w.is_empty() || (__w[0] != b'~' && __w[__w.len() - 1] != b'~'));
+            $p = $p.trim_matches('~');
+        }
+    };
+}
